@@ -23,7 +23,58 @@ pub fn name_pools() -> Vec<(Vec<&'static str>, Vec<&'static str>)> {
         (vec!["string", "String", "option", "vec", "Vec", "Option"], vec!["a", "b"]),
         (vec!["a", "a1", "a2", "A"], vec!["a", "a_1", "a_attr"]),
         (vec!["PqRs", "A", "Pq", "RsA", "PqRsA"], vec!["k"]),
+        (vec!["e_mail", "iPhone", "x-ray", "tShirt", "a_b"], vec!["arrivée", "preisé", "ns:maß", "abcdeé", "e_mail"]),
     ]
+}
+
+/// a random name: a letter first (so "a letter before any digit"), then letters in both
+/// cases, digits, separators, a namespace prefix now and then, non-ASCII letters of Sigma
+pub fn rand_name(rng: &mut Rng) -> String {
+    let first = ['a', 'b', 'e', 'i', 'x', 'A', 'B', 'T', 'Z', 'é', 'Ж', 'д', 'ß', 'İ', 'ǅ'];
+    let rest = ['a', 'b', 'e', 'l', 'm', 'A', 'B', 'P', 'S', '1', '2', '0', '_', '-', '.', '_', 'é', 'Ж', 'д', 'ß', 'ö', 'Σ', 'ς'];
+    let mut s = String::new();
+    if rng.chance(1, 8) {
+        s.push(*rng.pick(&['p', 'q', 'n']));
+        if rng.chance(1, 2) {
+            s.push(*rng.pick(&['s', '1']));
+        }
+        s.push(':');
+    }
+    s.push(*rng.pick(&first));
+    let n = rng.below(9);
+    for _ in 0..n {
+        s.push(*rng.pick(&rest));
+    }
+    s
+}
+pub fn rand_pool(rng: &mut Rng) -> (Vec<String>, Vec<String>) {
+    let nn = rng.range(2, 5);
+    let na = rng.range(1, 4);
+    let mut names: Vec<String> = vec![];
+    while names.len() < nn {
+        let mut x = rand_name(rng);
+        // case / separator variants of an existing name, now and then
+        if !names.is_empty() && rng.chance(1, 4) {
+            let base = rng.pick(&names).clone();
+            x = match rng.below(4) {
+                0 => base.to_uppercase(),
+                1 => base.to_lowercase(),
+                2 => base.replace('_', "-"),
+                _ => format!("{}1", base),
+            };
+        }
+        if !names.contains(&x) && !x.contains(' ') {
+            names.push(x);
+        }
+    }
+    let mut attrs: Vec<String> = vec![];
+    while attrs.len() < na {
+        let x = if rng.chance(1, 4) { rng.pick(&names).clone() } else { rand_name(rng) };
+        if !attrs.contains(&x) {
+            attrs.push(x);
+        }
+    }
+    (names, attrs)
 }
 
 pub type Extra = fn(&mut Ctx, &[Vec<Node>], &[Vec<u8>], &Built, &mut Rng, &mut Hist) -> Vec<J>;
@@ -87,7 +138,10 @@ pub fn run_docprop(ctx: &mut Ctx, p: DocProp) {
         } else {
             *rng.pick(&p.pools)
         };
-        let (names, attrs) = &pools[pi];
+        let rp = rand_pool(&mut rng);
+        let rnames: Vec<&str> = rp.0.iter().map(|x| x.as_str()).collect();
+        let rattrs: Vec<&str> = rp.1.iter().map(|x| x.as_str()).collect();
+        let (names, attrs) = if i % 3 == 1 { (&rnames, &rattrs) } else { (&pools[pi].0, &pools[pi].1) };
         let mut g = GenCfg::basic(names, attrs);
         g.max_depth = rng.range(2, 5);
         g.max_kids = rng.range(1, 6);
@@ -133,7 +187,7 @@ pub fn run_docprop(ctx: &mut Ctx, p: DocProp) {
     ctx.meta.push(("evaluations", J::N(evaluations)));
     ctx.meta.push(("distinct_nontrivial", J::N(distinct.len() as i64)));
     ctx.meta.push(("rule", json::s(format!(
-        "documents as DOM trees serialised with random incidental detail: {}{} random sequences of 1-{} documents with a common root (13 name pools incl. keywords, case/separator variants, prefixed, non-ASCII, concatenation traps; depth<=5, fan-out<=6); {}; non-trivial = at least 3 nodes, distinct by DOM sequence",
+        "documents as DOM trees serialised with random incidental detail: {}{} random sequences of 1-{} documents with a common root (14 fixed name pools and, for a third of the cases, a pool of random names incl. keywords, case/separator variants, prefixed, non-ASCII, concatenation traps; depth<=5, fan-out<=6); {}; non-trivial = at least 3 nodes, distinct by DOM sequence",
         exh_note, n_rand, p.max_docs, p.what))));
     ctx.meta.push(("histogram", hist.json()));
     ctx.meta.push(("samples", J::A(samples)));
